@@ -7,7 +7,13 @@ package headers
 // Frame only: parsing writes the receiver's fields and fresh memory.
 // C10, completeness for Basic credentials: decoded "user:password" credentials are refused for
 // their shape only when they contain no ':' at all (a password may itself contain ':').
+// C09, both halves of the Basic round trip use one and the same base64 alphabet (the standard one):
+// credentials written by Marshal are read back by Unmarshal whatever bytes they contain.
+//@ func (h Authorization) Marshal
+//@   assert[C09]@call:EncodeToString arg(0) == base64.StdEncoding
+//@   modifies fresh
 //@ func (h *Authorization) Unmarshal
+//@   assert[C09]@call:DecodeString arg(0) == base64.StdEncoding
 //@   assert[C10]@return#6 strcount(string(tmp), ":") == 0
 //@   ensures[C10] err == nil && h.Method == AuthMethodBasic ==> strcount(h.Username, ":") == 0
 // The same fact is what the Basic round trip of C09 needs: Marshal joins user and password with the
@@ -21,3 +27,8 @@ package headers
 //@   opt safety-tag=C09
 //@   opt frame-tag=C09
 //@   modifies fields(h), fresh
+
+// Same for the MIKEY message carried by KeyMgmt.
+//@ func (h KeyMgmt) Marshal
+//@   assert[C09]@call:EncodeToString arg(0) == base64.StdEncoding
+//@   modifies *
